@@ -3,7 +3,7 @@ ID = 'C08'
 LEVEL = 'other'
 CONTRACT_MODULES = ['contracts.evals', 'contracts.calc']
 CONE = ['csep.core.poisson_evaluations._t_test_ndarray', 'csep.core.forecasts.MarkedGriddedDataSet.get_magnitude_index']
-ORACLE_MODULES = ['rt.oracles_eval']
+ORACLE_MODULES = ['rt.oracles_eval', 'rt.oracles_contracts']
 BOUNDED = os.path.exists(os.path.join(os.path.dirname(__file__), '..', 'rt', 'bounded_C08.py'))
 FLOAT_MODEL = 'R; log, sqrt, t.ppf uninterpreted'
 TRUSTED = ['scipy.stats.t.ppf, numpy.log/sqrt/power element-wise', 'pyvc engine, z3 5.1']
